@@ -786,7 +786,7 @@ def is_zero_test(g, x):
     return (A.eq(g['a'], x) and A.eq(g['b'], ZERO)) or (A.eq(g['b'], x) and A.eq(g['a'], ZERO))
 
 
-def check_fold(run, S, name, init_exp, step, rule='K7 fold pattern', what='sum'):
+def check_fold(run, S, name, init_exp, step, rule='K7 fold pattern', what='sum', step_exp=None):
     """The root must be exactly one Iterator::fold(iter, init, f): init == init_exp (flat list of El), and the
     separately summarised callable f(acc, item) must satisfy step(acc_leaves, item_leaves, result_leaves) -> bool.
     The root's result must be the fold's result itself."""
@@ -797,12 +797,44 @@ def check_fold(run, S, name, init_exp, step, rule='K7 fold pattern', what='sum')
     where = r.get('span')
     key = '%s:%s' % (run.prop, name)
     folds = [e for e in leaf['trace'] if e['fn'] == 'core::iter::traits::iterator::Iterator::fold']
-    if not run.ob(key + ':fold', len(folds) == 1 and len(leaf['trace']) == 1, rule=rule, expected='the body is one Iterator::fold over the argument iterator', found=[e['fn'] for e in leaf['trace']], where=where):
+    cv = Conv(S)
+    # adaptors in front of the fold must be transparent: cloned / copied, or map with a closure returning its item (`|q| *q`)
+    adaptors = [e for e in leaf['trace'] if e['fn'] != 'core::iter::traits::iterator::Iterator::fold']
+    transparent = {}
+    for e_ in adaptors:
+        short = e_['fn'].rsplit('::', 1)[-1]
+        ok_ = e_['fn'] in ('core::iter::traits::iterator::Iterator::cloned', 'core::iter::traits::iterator::Iterator::copied')
+        if e_['fn'] == 'core::iter::traits::iterator::Iterator::map':
+            lam_ = e_.get('lambda', {})
+            if 'out' in lam_ and lam_['out']['k'] == 'ret' and 'item' in lam_:
+                def thr(x):
+                    if isinstance(x, dict) and 'ref' in x:
+                        return thr(x['val'])
+                    return [thr(y) for y in x] if isinstance(x, list) else x
+                got_, item_ = flat(thr(cv.val(lam_['out']['v']))), flat(thr(cv.val(lam_['item'])))
+                ok_ = len(got_) == len(item_) and all(A.eq(el_of(x), el_of(y)) for x, y in zip(got_, item_))
+        transparent[e_['ret']] = (ok_, short)
+    if not run.ob(key + ':fold', len(folds) == 1 and all(ok_ for ok_, _ in transparent.values()), rule=rule, expected='the body is one Iterator::fold over the argument iterator (behind value-preserving adaptors at most)',
+                  found=[e['fn'] for e in leaf['trace']], where=where):
         return False
     e = folds[0]
-    cv = Conv(S)
     itv = e['args'][0]
-    run.ob(key + ':iter', itv.get('t') is not None and S.terms[itv['t']] == ['v', 'a0'], rule=rule, expected='folds the caller\'s iterator itself', found=S.showval(itv)[:100], where=where)
+    iv_ = itv
+    while isinstance(iv_, dict) and 'a' in iv_ and iv_['a'] and transparent:
+        iv_ = iv_['a'][0]      # an adaptor struct shaped as (inner iterator, closure)
+    tid = iv_.get('t') if isinstance(iv_, dict) else None
+    # strip the adaptor results: proj(call, 0) / call(adaptor, gargs, inner, ...)
+    for _ in range(8):
+        if tid is None:
+            break
+        t_ = S.terms[tid]
+        if t_[0] == 'a' and t_[1] == 'proj' and S.terms[t_[2][1]] == ['i', '0']:
+            tid = t_[2][0]
+        elif tid in transparent and t_[0] == 'a' and t_[1] == 'call' and len(t_[2]) >= 3:
+            tid = t_[2][2]
+        else:
+            break
+    run.ob(key + ':iter', tid is not None and S.terms[tid] == ['v', 'a0'], rule=rule, expected='folds the caller\'s iterator itself', found=S.showval(itv)[:100], where=where)
     init = flat(cv.val(e['args'][1]))
     ok = len(init) == len(init_exp) and all(A.eq(el_of(x), y) for x, y in zip(init, init_exp))
     run.ob(key + ':init', ok, rule=rule, expected='initial accumulator = %s' % [A.show(x) for x in init_exp], found=[A.show(el_of(x)) if isinstance(x, (El, int)) else str(x) for x in init], where=where)
@@ -814,7 +846,21 @@ def check_fold(run, S, name, init_exp, step, rule='K7 fold pattern', what='sum')
     names = [t_[1] for t_ in S.terms if t_[0] == 'v' and (t_[1].startswith('acc') or t_[1].startswith('item'))]
     acc_names = sorted([x for x in set(names) if x.startswith('acc')], key=lambda s_: names.index(s_))
     item_names = sorted([x for x in set(names) if x.startswith('item')], key=lambda s_: names.index(s_))
-    okstep = len(res) == n and step(res)
+    if step_exp is not None and 'acc' in lam and 'item' in lam:
+        # accumulator and item leaves in field order, whatever their types (a scalar accumulator wrapped once at the end
+        # is as good as an accumulator of the compound type)
+        def through_refs(x):
+            if isinstance(x, dict) and 'ref' in x:
+                return through_refs(x['val'])
+            if isinstance(x, list):
+                return [through_refs(y) for y in x]
+            return x
+        accl = [el_of(x) for x in flat(through_refs(cv.val(lam['acc'])))]
+        iteml = [el_of(x) for x in flat(through_refs(cv.val(lam['item'])))]
+        exp_ = step_exp(accl, iteml) if len(accl) == n and len(iteml) == n else []
+        okstep = len(res) == n and len(exp_) == n and all(A.eq(el_of(x), y) for x, y in zip(res, exp_))
+    else:
+        okstep = len(res) == n and step(res)
     run.ob(key + ':step', okstep, rule=rule, expected='callable(acc, item) = acc %s item, accumulator on the left' % ('+' if what == 'sum' else '*'), found=[A.show(x) if isinstance(x, El) else str(x) for x in res][:6], where=where)
     # result of the root is the fold result
     rv = leaf['v']
@@ -823,6 +869,112 @@ def check_fold(run, S, name, init_exp, step, rule='K7 fold pattern', what='sum')
     want = flat(cv.val(_shape_like(S, rv, ft)))
     run.ob(key + ':result', len(rt) == len(want) and all(A.eq(el_of(x), el_of(y)) for x, y in zip(rt, want)), rule=rule, expected='returns the fold result unchanged', found=S.showval(rv)[:120], where=where)
     return True
+
+
+def _single_atom(el):
+    if not isinstance(el, El) or len(el.t) != 1:
+        return None
+    (m, c), = el.t.items()
+    if c != 1 or len(m) != 1 or m[0][1] != 1:
+        return None
+    return m[0][0]
+
+
+def proj_path(atom):
+    """atom = proj(...proj(X, i1)..., ik) (through deref): (atom id of X, (i1, ..., ik))"""
+    path = []
+    v = atom
+    while True:
+        kd = A.CTX.kind[v]
+        if kd[0] == 'fn' and kd[1] == 'proj' and len(kd[2]) == 2 and kd[2][1].is_const():
+            inner = _single_atom(kd[2][0])
+            if inner is None:
+                break
+            path.append(int(kd[2][1].const()))
+            v = inner
+        elif kd[0] == 'fn' and kd[1] == 'deref' and len(kd[2]) == 1:
+            inner = _single_atom(kd[2][0])
+            if inner is None:
+                break
+            v = inner
+        else:
+            break
+    return v, tuple(reversed(path))
+
+
+def check_accumulate(run, S, name, init_exp, step_exp, fold_step, rule='K7 fold pattern', what='sum', max_iter=5):
+    """Sum / Product over an opaque iterator, in either idiom:
+    fold idiom  - exactly one Iterator::fold(iter, init, f) with f(acc, item) = step (check_fold);
+    loop idiom  - `for x in iter { acc = acc (+) x }`: the outcome tree is the chain  next_1 == None -> v_0,
+                  next_2 == None -> v_1, ...;  v_0 = init and v_k = step_exp(v_{k-1}, item_k) for the first iterations,
+                  where item_k are the components of the payload of the k-th next() of the SAME iterator
+                  (the same loop body is unrolled each time, so the first iterations characterise it)."""
+    r = run.use_root(S, name)
+    if r is None:
+        run.ob('%s:%s:present' % (run.prop, name), False, rule='root-present', expected='harness root summarised', found='missing')
+        return False
+    o = r['out']
+    t0 = S.terms[o['c']] if o['k'] == 'switch' else None
+    if not (t0 and t0[0] == 'a' and t0[1] == 'discr'):
+        return check_fold(run, S, name, init_exp, fold_step, rule=rule, what=what, step_exp=step_exp)
+    where = r.get('span')
+    key = '%s:%s' % (run.prop, name)
+    chain = []
+    while o is not None and o['k'] == 'switch':
+        t = S.terms[o['c']]
+        arms = {int(v): sub for v, sub in o['arms']}
+        if not (t[0] == 'a' and t[1] == 'discr' and set(arms) == {0, 1} and o['other'] is None and arms[0]['k'] == 'ret'):
+            break
+        chain.append((t[2][0], arms[0]))
+        o = arms[1]
+    tail_ok = o is not None and o['k'] == 'cut'
+    if not run.ob(key + ':loop', len(chain) >= 3 and tail_ok, rule=rule, expected='an accumulation loop: next() == None returns the accumulator, Some(x) continues (unrolled to the loop bound)',
+                  found='%d iterations, tail %s' % (len(chain), o['k'] if o else None), where=where):
+        return False
+    cv = Conv(S)
+    n = len(init_exp)
+    v0 = [el_of(x) for x in flat(cv.val(chain[0][1]['v']))]
+    run.ob(key + ':init', len(v0) == n and all(A.eq(x, y) for x, y in zip(v0, init_exp)), rule=rule, expected='no items: %s' % [A.show(x) for x in init_exp][:4], found=[A.show(x) for x in v0][:4], where=where)
+    # the iterator: next_1 on the caller's iterator, next_{k+1} on the same iterator after next_k
+    seq_ok = 'a0' in S.show(chain[0][0])
+    for k in range(1, len(chain)):
+        tk = S.terms[chain[k][0]]
+        prev = chain[k - 1][0]
+        inner = S.terms[tk[2][-1]] if tk[0] == 'a' and tk[2] else None
+        if not (inner and inner[0] == 'a' and inner[1] == 'mut' and inner[2][0] == prev):
+            seq_ok = False
+    run.ob(key + ':iter', seq_ok, rule=rule, expected='every next() is taken from the caller\'s iterator, one after the other', found=S.show(chain[1][0])[:160], where=where)
+    prev = v0
+    seen = set().union(*[x.atoms() for x in v0]) if v0 else set()
+    allok = True
+    for k in range(1, min(len(chain), max_iter + 1)):
+        vk = [el_of(x) for x in flat(cv.val(chain[k][1]['v']))]
+        atoms = set().union(*[x.atoms() for x in vk]) if vk else set()
+        fresh = sorted(atoms - seen)
+        nk = _single_atom(cv.el(chain[k - 1][0]))
+        items = []
+        good = nk is not None
+        for a_ in fresh:
+            base, path = proj_path(a_)
+            kd = A.CTX.kind[base]
+            if not (kd[0] == 'fn' and kd[1] == 'variant' and _single_atom(kd[2][0]) == nk and path and path[0] == 0):
+                good = False
+                break
+            items.append((path, El.a(a_)))
+        items.sort(key=lambda x: x[0])
+        item = [x for _, x in items]
+        if not (good and len(item) == n and len(vk) == n):
+            run.ob('%s:step%d:items' % (key, k), False, rule=rule, expected='iteration %d reads exactly the %d components of the item returned by the %d-th next()' % (k, n, k),
+                   found=[A.show(El.a(a_), 3) for a_ in fresh][:6], where=where)
+            allok = False
+            break
+        exp = step_exp(prev, item)
+        ok = all(A.eq(x, y) for x, y in zip(vk, exp))
+        run.ob('%s:step%d' % (key, k), ok, rule=rule, expected='after %d items: acc %s item, accumulator on the left' % (k, '+' if what == 'sum' else '*'), found=[A.show(x, 4) for x in vk][:4], where=where)
+        allok = allok and ok
+        prev = vk
+        seen |= atoms
+    return allok
 
 
 def _shape_like(S, v, t):
